@@ -7,6 +7,7 @@ import (
 	"encoding/json"
 	"flag"
 	"fmt"
+	"go/ast"
 	"os"
 	"runtime/debug"
 	"sort"
@@ -192,6 +193,15 @@ func dumpMain(repo, pat string) int {
 	if err != nil {
 		fmt.Println("ERROR", err)
 		return 2
+	}
+	if pat == "@exported" {
+		// development aid: the exported functions of the module (frozen in known_api.go)
+		for _, f := range p.Funcs {
+			if inModule(f) && f.Synthetic == "" && f.Parent() == nil && ast.IsExported(f.Name()) {
+				fmt.Println(helperKey(f))
+			}
+		}
+		return 0
 	}
 	mod := newModAnalysis(p)
 	for _, f := range p.Funcs {
